@@ -233,6 +233,23 @@ def bleCall (b : BleDev) (w : World) (toks : List String) : Option (String × Bl
     let (res, d', w') ← rf24Call b.rf w toks
     some (res, { b with rf := d' }, w')
 
+/-- `dflt <method> <required args…>`: the call with every optional parameter left at its documented default
+    (the same defaults in rf24.py and rf24_lite.py) -/
+def expandDefaults : List String → List String
+  | ["dflt", "send", buf] => ["send", buf, "F", "0", "F"]
+  | ["dflt", "write", buf] => ["write", buf, "F", "F"]
+  | ["dflt", "resend"] => ["resend", "F"]
+  | ["dflt", "read"] => ["read", "N"]
+  | ["dflt", "fifo"] => ["fifo", "F", "N"]
+  | ["dflt", "clear_status_flags"] => ["clear_status_flags", "T", "T", "T"]
+  | ["dflt", "interrupt_config"] => ["interrupt_config", "T", "T", "T"]
+  | ["dflt", "set_dynamic_payloads", e] => ["set_dynamic_payloads", e, "N"]
+  | ["dflt", "get_dynamic_payloads"] => ["get_dynamic_payloads", "0"]
+  | ["dflt", "set_payload_length", l] => ["set_payload_length", l, "N"]
+  | ["dflt", "get_payload_length"] => ["get_payload_length", "0"]
+  | ["dflt", "address"] => ["address", "-1"]
+  | t => t
+
 def sessStep (s : Sess) (toks : List String) : Option (String × Sess) :=
   match toks with
   | ["new", name, "rf24", rid] => do
@@ -257,6 +274,7 @@ def sessStep (s : Sess) (toks : List String) : Option (String × Sess) :=
     let ns ← parseNat ns
     some ("ok ~ -", { s with w := s.w.sleep ns })
   | name :: rest => do
+    let rest := expandDefaults rest
     match s.objs.lookup name with
     | none => none
     | some (.rf d) =>
